@@ -15,6 +15,12 @@
     blocks), and — when the metadata fits behind the flex owner (`Fits`, decidable, checked by the driver for
     every generated parameter set) — the per-group metadata regions are pairwise disjoint, lie behind the
     superblock / GDT copy and inside the owner's block group (`mkfs_regions_disjoint`, `mkfs_layout_inside`).
+  * the block bitmap of every group as Create builds it (Model/Ext4/MkfsBitmap.lean: `mkBitmaps`, `markedBit`): under
+    `Fits` the marked bits among a group's real blocks are exactly the prefix of length `overhead` — superblock,
+    ceil(groups × descriptor size / block size) GDT blocks and the reserved GDT blocks in a group with a backup,
+    then the slots of the group itself / of its whole flex group (`mkfs_bitmap_marked`,
+    `mkfs_bitmap_backup_group`, `_noflex`) — and the descriptor's free count is the group size minus the
+    number of marked bits (`mkfs_free_is_unmarked`).
 
   * link counts and used-directories counters (Model/Ext4/Links.lean): the bookkeeping of Mkdir / create / Symlink
     and Remove keeps "a directory has 2 + #sub-directories links, everything else 1, each group's counter is the
@@ -27,6 +33,7 @@
 import DiskfsModel.Proofs.Ext4Alloc
 import DiskfsModel.Proofs.Ext4AllocSlow
 import DiskfsModel.Proofs.Ext4Mkfs
+import DiskfsModel.Proofs.Ext4MkfsBitmap
 import DiskfsModel.Proofs.Ext4Links
 import DiskfsModel.Proofs.Ext4Own
 import DiskfsModel.Proofs.Ext4DirGrow
@@ -320,6 +327,70 @@ example : step wState (.remove wGeo 3 [4, 4] false) = .refused wState := by deci
 def p16 : Params := ⟨16 * 1024 * 1024, 0, 0, 0, 0, 0, true, true, true⟩
 example : groupsOf p16 = 2 ∧ ipgOf p16 = 1024 ∧ chooseBs p16 = 1024 ∧ flexSizeOf p16 = 8 := by decide
 example : Fits ⟨1024, 16384, 8192, 2, 1024, 2048, 1, 256, 64, 1, 256, 8, true⟩ true := by decide
+
+/-! ### mkfs: the group block bitmaps (Model/Ext4/MkfsBitmap.lean) -/
+
+theorem mkLayout_ok (p : Params) (l : Layout) (h : mkLayout p = .ok l) : l = layoutOf p := by
+  unfold mkLayout at h
+  repeat (split at h; · cases h)
+  injection h with h
+  exact h.symm
+
+/-- mkfs_bitmap_marked: when the metadata fits its groups (Fits), the bits buildBlockBitmapForGroup sets among the
+    real blocks of group g are exactly the first `overhead` ones: superblock + GDT + reserved GDT blocks if the group
+    holds a backup, then the (block bitmap, inode bitmap, inode table) slots of the group itself (no flex_bg) or of
+    every group of its flex group (flex_bg, first group of the flex group only) -/
+theorem mkfs_bitmap_marked (l : Layout) (flex : Bool) (hf : 0 < l.flexSize) (hfit : Fits l flex) (g : Nat)
+    (hg : g < l.groups) (j : Nat) (hj : j < blocksInGroup l g) :
+    markedBit l flex g j = true ↔ j < overhead l flex g :=
+  markedBit_iff l flex hf hfit g hg j hj
+
+/-- mkfs_bitmap_backup_group (flex_bg): in a group with a superblock backup that is not the first of its flex group,
+    exactly 1 + ceil(groups * descriptor size / block size) + reserved GDT blocks are marked and nothing else, for
+    every layout Create computes -/
+theorem mkfs_bitmap_backup_group (p : Params) (l : Layout) (hl : mkLayout p = .ok l) (hfit : Fits l true) (g : Nat)
+    (hg : g < l.groups) (hs : hasSuper g = true) (hno : g ≠ flexOwner l g) (j : Nat) (hj : j < blocksInGroup l g) :
+    markedBit l true g j = true ↔ j < 1 + ceilDiv (l.groups * l.descSize) l.bs + l.rsvGdt := by
+  have hf := (mkfs_counts_consistent p l hl).2.2.2.2.2.2
+  rw [markedBit_iff l true hf hfit g hg j hj]
+  have hgdt : l.gdtBlocks = ceilDiv (l.groups * l.descSize) l.bs := by
+    rw [mkLayout_ok p l hl]; rfl
+  unfold overhead metaBlocks
+  simp only [hs, if_true, if_neg hno, hgdt, Nat.add_zero]
+
+/-- the same without flex_bg: the backup's blocks, then the group's own two bitmaps and inode table of
+    ceil(inodes per group * 256 / block size) blocks -/
+theorem mkfs_bitmap_backup_group_noflex (p : Params) (l : Layout) (hl : mkLayout p = .ok l) (hfit : Fits l false)
+    (g : Nat) (hg : g < l.groups) (hs : hasSuper g = true) (j : Nat) (hj : j < blocksInGroup l g) :
+    markedBit l false g j = true ↔
+      j < 1 + ceilDiv (l.groups * l.descSize) l.bs + l.rsvGdt + (2 + ceilDiv (l.ipg * 256) l.bs) := by
+  have hf := (mkfs_counts_consistent p l hl).2.2.2.2.2.2
+  rw [markedBit_iff l false hf hfit g hg j hj]
+  have hgdt : l.gdtBlocks = ceilDiv (l.groups * l.descSize) l.bs := by
+    rw [mkLayout_ok p l hl]; rfl
+  have hitb : l.itb = ceilDiv (l.ipg * 256) l.bs := by
+    rw [mkLayout_ok p l hl]; rfl
+  unfold overhead metaBlocks perGroupMeta
+  simp only [hs, if_true, Bool.false_eq_true, if_false, hgdt, hitb]
+
+/-- mkfs_free_is_unmarked: the free count buildGroupDescriptorsFromSuperblock records for a group is the number of
+    its real blocks minus the number of marked bits of its bitmap -/
+theorem mkfs_free_is_unmarked (l : Layout) (flex : Bool) (hf : 0 < l.flexSize) (hfit : Fits l flex) (g : Nat)
+    (hg : g < l.groups) :
+    markedCount l flex g ≤ blocksInGroup l g ∧ initialFree l flex g = blocksInGroup l g - markedCount l flex g := by
+  rw [markedCount_eq l flex hf hfit g hg, initialFree_eq]
+  exact ⟨Nat.min_le_right _ _, rfl⟩
+
+/-! non-vacuity: 32 MiB, 1 KiB blocks, 2048 blocks per group: 16 groups = one full GDT block of 64-byte descriptors -/
+def p32 : Params := ⟨32 * 1024 * 1024, 0, 2048, 0, 0, 0, false, true, true⟩
+def l32 : Layout := ⟨1024, 32768, 2048, 16, 256, 4096, 1, 0, 64, 1, 64, 8, false⟩
+example : mkLayout p32 = .ok l32 := by rfl
+example : Fits l32 true := by decide
+/-- group 1 holds a backup and is not the first of its flex group: superblock and one GDT block, the third block free -/
+example : hasSuper 1 = true ∧ 1 ≠ flexOwner l32 1 ∧ markedBit l32 true 1 1 = true ∧ markedBit l32 true 1 2 = false := by decide
+/-- groups / descriptors per block + 1 is not the number of GDT blocks when the division is exact -/
+example : 16 / (1024 / 64) + 1 ≠ ceilDiv (16 * 64) 1024 := by decide
+example : initialFree l32 true 1 = 2046 ∧ initialFree l32 true 0 = 2048 - (2 + 8 * 66) := by decide
 
 end Diskfs.Ext4.C05
 
